@@ -1,5 +1,6 @@
 mod btree;
 mod capi;
+mod capi_driver;
 mod cypher;
 mod sched;
 mod dump;
@@ -88,8 +89,20 @@ fn main() {
             let sessions = read_ndjson(a.get("in").expect("--in"));
             let out = std::fs::File::create(a.get("out").expect("--out")).unwrap();
             let mut w = BufWriter::new(out);
-            let stats = cypher::run_sessions(&sessions, &mut w, &scratch);
-            println!("{stats}");
+            // sessions marked "api": "c" go through the public C ABI, the others through the Rust API
+            let (mut ns, mut nc, mut ne, mut nr) = (0u64, 0u64, 0u64, 0u64);
+            for s in &sessions {
+                let st = if s["api"] == "c" {
+                    capi_driver::run_sessions(std::slice::from_ref(s), &mut w, &scratch)
+                } else {
+                    cypher::run_sessions(std::slice::from_ref(s), &mut w, &scratch)
+                };
+                ns += 1;
+                nc += st["cases"].as_u64().unwrap_or(0);
+                ne += st["errors"].as_u64().unwrap_or(0);
+                nr += st["rows"].as_u64().unwrap_or(0);
+            }
+            println!("{}", json!({"sessions": ns, "cases": nc, "errors": ne, "rows": nr}));
         }
         "snap" | "incr" => {
             let scenarios = read_ndjson(a.get("in").expect("--in"));
